@@ -292,7 +292,7 @@ func Gen(t *simkit.Tape, sched bool) *Scenario {
 	}
 	s.N = t.Bool(1, 3)
 	if sched {
-		s.C = []int{2, 3, 4, 8}[t.Draw(4)]
+		s.C = []int{2, 3, 4, 8, 64}[t.Pick(3, 3, 3, 2, 1)]
 	}
 	if t.Bool(1, 2) {
 		for i := 0; i < 16; i++ {
